@@ -3622,7 +3622,7 @@ class FlowIR(object):
 
             stageRe = re.compile(r"stage([0-9]+)")
             # Check that the putative `stage` part of the reference is an actual stage reference
-            match = stageRe.match(stage)
+            match = stageRe.fullmatch(stage)
             if match is not None:
                 stageIndex = int(match.group(1))
                 hasIndex = True
